@@ -226,6 +226,24 @@ def s07_time_fields(E):
         yield pc, z3.And(r.d == 1, r.p["Some"][0] == fdiv(z3.ToReal(t % 60_000_000), z3.ToReal(z3.IntVal(1_000_000)))), "Time::second = microseconds of the minute / 1e6 (as f64)"
 
 
+def s07_ts_time_accessors(E):
+    """hour/minute/second of a timestamp are those of its time of day, for every timestamp"""
+    u = E.int_in("u", "i64", TS_MIN, TS_MAX)
+    t = u % D
+    fdiv = z3.Function("f64_div", z3.RealSort(), z3.RealSort(), z3.RealSort())
+    for name, expect in (("hour", t / 3_600_000_000), ("minute", (t / 60_000_000) % 60)):
+        for k, pc, r in run(E, name, ["&timestamp::Timestamp"], [ts_of(u)]):
+            if k == "panic":
+                yield pc, "panic", r
+                continue
+            yield pc, z3.And(r.d == 1, r.p["Some"][0] == expect), "Timestamp::%s" % name
+    for k, pc, r in run(E, "second", ["&timestamp::Timestamp"], [ts_of(u)]):
+        if k == "panic":
+            yield pc, "panic", r
+            continue
+        yield pc, z3.And(r.d == 1, r.p["Some"][0] == fdiv(z3.ToReal(t % 60_000_000), z3.ToReal(z3.IntVal(1_000_000)))), "Timestamp::second"
+
+
 # ------------------------------------------------------------------------------------- C12
 def dt_of(i):
     return Struct([I(i)], "interval::IntervalDT")
@@ -404,8 +422,8 @@ def conv(E, ret, st):
         yield out[0], pc, out[1]
 
 
-def s05_conv_date(E):
-    st, (y, mo, d, h, mi, s, us, neg) = naive(E)
+def s05_conv_date(E, ylo=-999_999_999, yhi=999_999_999):
+    st, (y, mo, d, h, mi, s, us, neg) = naive(E, ylo, yhi)
     for k, pc, r in conv(E, "date::Date", st):
         if k == "panic":
             yield pc, "panic", r
@@ -431,8 +449,8 @@ def s05_conv_time(E):
                         z3.If(fields, err_is(r, "TimeOutOfRange"), hms_error(r, h, mi, s))), "Time from fields with microsecond carry"
 
 
-def s05_conv_ts(E):
-    st, (y, mo, d, h, mi, s, us, neg) = naive(E)
+def s05_conv_ts(E, ylo=-999_999_999, yhi=999_999_999):
+    st, (y, mo, d, h, mi, s, us, neg) = naive(E, ylo, yhi)
     for k, pc, r in conv(E, "timestamp::Timestamp", st):
         if k == "panic":
             yield pc, "panic", r
@@ -685,3 +703,318 @@ def s15_binary_decode(E, which):
         good = z3.And(v >= lo, v <= hi, v % unit == 0)
         okv = raw_of(ok_payload(r)) == v if "Ok" in r.p else z3.BoolVal(False)
         yield pc, z3.If(good, z3.And(r.d == 0, okv), r.d == 1), "binary payload -> in-range value or error (%s)" % ty
+
+
+# ------------------------------------------------------------------------------------- C09
+def s09_add_months(E):
+    """Month carry of add_interval_ym for EVERY real date x EVERY month offset in one go.  The
+    (y, m, d) extraction is replaced by its contract (any real date - C01 decides that extract
+    returns the date's own triple); what is decided here is the year/month carry by floor division,
+    the day kept as is, and the error exactly when the target month has no such day or the year
+    leaves 1..=9999."""
+    y = E.int_in("y", "i32", 1, 9999)
+    m = E.int_in("m", "u32", 1, 12)
+    d = E.int_in("d", "u32", 1, 31)
+    k = E.int_in("k", "i32", -YM_MAX, YM_MAX)
+    E.assume(d <= dim(y, m))
+    n = z3.Int("self_days")
+    E.assume(n >= DAY_MIN, n <= DAY_MAX)
+
+    def stub(eng, args, pcs, callee):
+        yield pcs, ("ret", Struct([y, m, d]))
+    E.stubs["extract"] = (lambda c: "Date" in c, stub)
+    f = E.find("add_interval_ym_internal", ["date::Date", "interval::IntervalYM"])
+    d2j = E.find("date2julian", ["i32", "u32", "u32"])
+    idx = 12 * y + (m - 1) + k          # months since year 0
+    y2, m2 = idx / 12, idx % 12 + 1      # floor division
+    for pc, out in E.run(f, [date_of(n), Struct([k], "interval::IntervalYM")], []):
+        if out[0] == "panic":
+            yield pc, "panic", out[1]
+            continue
+        r = out[1]
+        ok = z3.And(y2 >= 1, y2 <= 9999, d <= dim(y2, m2))
+        if "Ok" in r.p:
+            for pc2, o2 in E.run(d2j, [y2, m2, d], pc + [ok]):
+                if o2[0] == "panic":
+                    continue
+                yield pc2, z3.And(r.d == 0, ok_payload(r).f[0] == o2[1] - EJ), "same day in the month k months away"
+            yield pc, z3.Implies(z3.Not(ok), r.d == 1), "error when the target month has no such day / year out of range"
+        else:
+            yield pc, z3.Not(ok), "error only when the target month has no such day / year out of range"
+
+
+# ------------------------------------------------------------------------------------- C08 / C17
+def res_ts(r, exact):
+    """Result<Timestamp>: Ok(exact) iff exact in range, else DateOutOfRange"""
+    inr = z3.And(exact >= TS_MIN, exact <= TS_MAX)
+    okv = ok_payload(r).f[0] == exact if "Ok" in r.p else z3.BoolVal(False)
+    return z3.If(inr, z3.And(r.d == 0, okv), err_is(r, "DateOutOfRange"))
+
+
+def s08_date_usecs(E):
+    """Date (= the timestamp at its midnight) +- day-time interval / time of day, differences"""
+    n = E.int_in("n", "i32", DAY_MIN, DAY_MAX)
+    i = E.int_in("i", "i64", -DT_MAX, DT_MAX)
+    t = E.int_in("t", "i64", 0, D - 1)
+    u = E.int_in("u", "i64", TS_MIN, TS_MAX)
+    base = n * D
+    dt, tm, ts, dd = dt_of(i), time_of(t), ts_of(u), date_of(n)
+    for name, arg, aty, exact in (("add_interval_dt", dt, "interval::IntervalDT", base + i),
+                                  ("sub_interval_dt", dt, "interval::IntervalDT", base - i),
+                                  ("sub_time", tm, "time::Time", base - t)):
+        for k, pc, r in run(E, name, ["date::Date", aty], [dd, arg]):
+            if k == "panic":
+                yield pc, "panic", r
+                continue
+            yield pc, res_ts(r, exact), "Date::%s = midnight +- operand, exactly range-checked" % name
+    for k, pc, r in run(E, "add_time", ["date::Date", "time::Time"], [dd, tm]):
+        if k == "panic":
+            yield pc, "panic", r
+            continue
+        yield pc, r.f[0] == base + t, "Date::add_time"
+    for k, pc, r in run(E, "sub_timestamp", ["date::Date", "timestamp::Timestamp"], [dd, ts]):
+        if k == "panic":
+            yield pc, "panic", r
+            continue
+        yield pc, z3.And(r.f[0] == base - u, r.f[0] >= -DT_MAX, r.f[0] <= DT_MAX), "Date::sub_timestamp exact difference"
+    for k, pc, r in run(E, "sub_date", ["timestamp::Timestamp", "date::Date"], [ts, dd]):
+        if k == "panic":
+            yield pc, "panic", r
+            continue
+        yield pc, r.f[0] == u - base, "Timestamp::sub_date exact difference"
+    for k, pc, r in run(E, "from", ["date::Date"], [dd], ret="timestamp::Timestamp"):
+        if k == "panic":
+            yield pc, "panic", r
+            continue
+        yield pc, r.f[0] == base, "Timestamp::from(Date) is its midnight"
+
+
+def s08_ts_usecs(E):
+    a = E.int_in("a", "i64", TS_MIN, TS_MAX)
+    i = E.int_in("i", "i64", -DT_MAX, DT_MAX)
+    t = E.int_in("t", "i64", 0, D - 1)
+    b = E.int_in("b", "i64", TS_MIN, TS_MAX)
+    for name, arg, aty, exact in (("add_interval_dt", dt_of(i), "interval::IntervalDT", a + i),
+                                  ("sub_interval_dt", dt_of(i), "interval::IntervalDT", a - i),
+                                  ("add_time", time_of(t), "time::Time", a + t),
+                                  ("sub_time", time_of(t), "time::Time", a - t)):
+        for k, pc, r in run(E, name, ["timestamp::Timestamp", aty], [ts_of(a), arg]):
+            if k == "panic":
+                yield pc, "panic", r
+                continue
+            yield pc, res_ts(r, exact), "Timestamp::%s exact, exactly range-checked" % name
+    for k, pc, r in run(E, "sub_timestamp", ["timestamp::Timestamp", "timestamp::Timestamp"], [ts_of(a), ts_of(b)]):
+        if k == "panic":
+            yield pc, "panic", r
+            continue
+        yield pc, z3.And(r.f[0] == a - b, r.f[0] >= -DT_MAX, r.f[0] <= DT_MAX), "Timestamp::sub_timestamp exact difference"
+
+
+# ------------------------------------------------------------------------------------- C10 / C11 (Date)
+def merged(E, name, ptypes, args):
+    """value of a (panic-free on these arguments) function as one expression: paths merged by ite"""
+    res = None
+    for k, pc, v in run(E, name, ptypes, args):
+        if k == "panic":
+            continue
+        cond = z3.And(*pc) if pc else z3.BoolVal(True)
+        res = v if res is None else z3.If(cond, v, res)
+    return res
+
+
+def dn(E, y, m, d):
+    """day number of a triple through the crate's own forward conversion (C01 ties it to the calendar)"""
+    return merged(E, "date2julian", ["i32", "u32", "u32"], [y, m, d]) - EJ
+
+
+def wd_of(n):
+    return (n + 4) % 7 + 1  # Sunday = 1
+
+
+def iso_start(E, y):
+    j4 = dn(E, y, z3.IntVal(1), z3.IntVal(4))
+    return j4 - (wd_of(j4) + 5) % 7
+
+
+DATE_UNITS = ["century", "year", "iso_year", "quarter", "month", "week", "iso_week", "month_start_week", "day",
+              "sunday_start_week", "hour", "minute"]
+
+
+def date_ctx(E):
+    y = E.int_in("y", "i32", 1, 9999)
+    m = E.int_in("m", "u32", 1, 12)
+    d = E.int_in("d", "u32", 1, 31)
+    E.assume(d <= dim(y, m))
+    n = dn(E, y, m, d)
+
+    def stub(eng, args, pcs, callee):
+        # contract of Date::extract on the date under test (C01); other dates are not decomposed here
+        a = args[0].f[0]
+        yield pcs + [a == n], ("ret", Struct([y, m, d]))
+    E.stubs["extract"] = (lambda c: "date::Date" in c or "Date::extract" in c, stub)
+    return y, m, d, n
+
+
+def o_trunc(E, unit, y, m, d, n):
+    wd = wd_of(n)
+    one = z3.IntVal(1)
+    if unit == "century":
+        return dn(E, y - (y - 1) % 100, one, one)
+    if unit == "year":
+        return dn(E, y, one, one)
+    if unit == "iso_year":
+        s0, s1, sm = iso_start(E, y), iso_start(E, y + 1), iso_start(E, y - 1)
+        return z3.If(n < s0, sm, z3.If(n >= s1, s1, s0))
+    if unit == "quarter":
+        return dn(E, y, (m - 1) / 3 * 3 + 1, one)
+    if unit == "month":
+        return dn(E, y, m, one)
+    if unit == "week":
+        return n - (doy(y, m, d) - 1) % 7
+    if unit == "iso_week":
+        return n - (wd + 5) % 7
+    if unit == "month_start_week":
+        return n - (d - 1) % 7
+    if unit == "sunday_start_week":
+        return n - (wd - 1)
+    return n
+
+
+def s10_date(E, which):
+    """Date truncation, unit number `which`, for EVERY real date: the greatest unit boundary not
+    after it, DateOutOfRange iff that boundary precedes 0001-01-01.  Date::extract is replaced by its
+    contract for the date under test (C01 decides it)."""
+    unit = DATE_UNITS[which]
+    y, m, d, n = date_ctx(E)
+    b = o_trunc(E, unit, y, m, d, n)
+    cands = [f for f in E.by_last["trunc_" + unit] if f.name.startswith("date::")]
+    for pc, out in E.run(cands[0], [date_of(n)], []):
+        if out[0] == "panic":
+            yield pc, "panic", out[1]
+            continue
+        r = out[1]
+        okv = ok_payload(r).f[0] == b if "Ok" in r.p else z3.BoolVal(False)
+        yield pc, z3.If(b >= DAY_MIN, z3.And(r.d == 0, okv, b <= n), err_is(r, "DateOutOfRange")), "Date::trunc_%s = start of the unit containing the date" % unit
+
+
+def o_round(E, unit, y, m, d, n, y00_up):
+    wd = wd_of(n)
+    one = z3.IntVal(1)
+    BIG = z3.IntVal(10 ** 9)
+
+    def week(off):
+        return z3.If(off >= 4, n + (7 - off), n - off)
+    if unit == "century":
+        c = y - (y - 1) % 100
+        pos = y - c + 1
+        up = z3.If(pos == 100, z3.BoolVal(y00_up), pos >= 51)
+        return z3.If(up, z3.If(c + 100 > 9999, BIG, dn(E, c + 100, one, one)), dn(E, c, one, one))
+    if unit == "year":
+        return z3.If(m >= 7, z3.If(y == 9999, BIG, dn(E, y + 1, one, one)), dn(E, y, one, one))
+    if unit == "iso_year":
+        return z3.If(m >= 7, z3.If(y == 9999, BIG, iso_start(E, y + 1)), o_trunc(E, "iso_year", y, m, d, n))
+    if unit == "quarter":
+        q1 = (m - 1) / 3 * 3 + 1
+        up = z3.Or(m > q1 + 1, z3.And(m == q1 + 1, d >= 16))
+        nxt = z3.If(q1 == 10, z3.If(y == 9999, BIG, dn(E, y + 1, one, one)), dn(E, y, q1 + 3, one))
+        return z3.If(up, nxt, dn(E, y, q1, one))
+    if unit == "month":
+        nxt = z3.If(m == 12, z3.If(y == 9999, BIG, dn(E, y + 1, one, one)), dn(E, y, m + 1, one))
+        return z3.If(d >= 16, nxt, dn(E, y, m, one))
+    if unit == "week":
+        return week((doy(y, m, d) - 1) % 7)
+    if unit == "iso_week":
+        return week((wd + 5) % 7)
+    if unit == "month_start_week":
+        return week((d - 1) % 7)
+    if unit == "sunday_start_week":
+        return week(wd - 1)
+    return n
+
+
+def s11_date(E, which, y00_mode=0):
+    """Date rounding, unit number `which`, for EVERY real date: the documented neighbour,
+    DateOutOfRange iff it lies after 9999-12-31.  y00_mode: 0 = years divisible by 100 excluded (for
+    the century unit), 1 = only those years with the stated rule (known finding), 2 = only those
+    years with the behaviour pinned by the repository's own test."""
+    unit = DATE_UNITS[which]
+    y, m, d, n = date_ctx(E)
+    if unit == "century":
+        E.assume((y % 100 == 0) if y00_mode else (y % 100 != 0))
+    b = o_round(E, unit, y, m, d, n, y00_mode != 2)
+    cands = [f for f in E.by_last["round_" + unit] if f.name.startswith("date::")]
+    for pc, out in E.run(cands[0], [date_of(n)], []):
+        if out[0] == "panic":
+            yield pc, "panic", out[1]
+            continue
+        r = out[1]
+        okv = ok_payload(r).f[0] == b if "Ok" in r.p else z3.BoolVal(False)
+        # the chosen boundary must exist: before 0001-01-01 (week units of the first three days) is an
+        # error just as after 9999-12-31 is
+        yield pc, z3.If(z3.And(b >= DAY_MIN, b <= DAY_MAX), z3.And(r.d == 0, okv), err_is(r, "DateOutOfRange")), "Date::round_%s = the documented neighbour" % unit
+
+
+def s09_ts_add_months(E):
+    """Timestamp +- year-month interval = (date part +- interval) at the same time of day, for
+    every timestamp.  The date-level month arithmetic is an uninterpreted function of its two
+    arguments here (s09_add_months decides it), so passing anything but the timestamp's own date
+    part and the (negated) interval is a counterexample."""
+    u = E.int_in("u", "i64", TS_MIN, TS_MAX)
+    k = E.int_in("k", "i32", -YM_MAX, YM_MAX)
+    F = z3.Function("ym_days", z3.IntSort(), z3.IntSort(), z3.IntSort())
+    G = z3.Function("ym_ok", z3.IntSort(), z3.IntSort(), z3.BoolSort())
+    H = z3.Function("ym_err", z3.IntSort(), z3.IntSort(), z3.IntSort())
+    called = []
+
+    def stub(eng, args, pcs, callee):
+        a, b = args[0].f[0], args[1].f[0]
+        called.append(1)
+        yield pcs + [F(a, b) >= DAY_MIN, F(a, b) <= DAY_MAX, H(a, b) >= 0, H(a, b) <= 15], \
+            ("ret", Enum(z3.If(G(a, b), 0, 1), {"Ok": [date_of(F(a, b))], "Err": [Enum(H(a, b), {}, "error::Error")]}, "Result"))
+    E.stubs["add_interval_ym_internal"] = (lambda c: True, stub)
+    n, t = u / D, u % D
+    for name, sg in (("add_interval_ym", 1), ("sub_interval_ym", -1)):
+        cands = [f for f in E.by_last[name] if f.name.startswith("timestamp::")]
+        for pc, out in E.run(cands[0], [ts_of(u), Struct([k], "interval::IntervalYM")], []):
+            if out[0] == "panic":
+                yield pc, "panic", out[1]
+                continue
+            r = out[1]
+            okv = ok_payload(r).f[0] == F(n, sg * k) * D + t if "Ok" in r.p else z3.BoolVal(False)
+            errv = r.p["Err"][0].d == H(n, sg * k) if "Err" in r.p else z3.BoolVal(False)
+            yield pc, z3.If(G(n, sg * k), z3.And(r.d == 0, okv), z3.And(r.d == 1, errv)), \
+                "Timestamp::%s = date-level result for (own date part, interval) at the same time of day" % name
+    if not called:
+        raise Unsupported("date-level month arithmetic not called")
+
+
+# ------------------------------------------------------------------------------------- C17
+def ord_is(o, a, b):
+    """Option<Ordering> value equals Some(a cmp b)"""
+    inner = o.p["Some"][0] if "Some" in o.p else None
+    if inner is None:
+        return z3.BoolVal(False)
+    return z3.And(o.d == 1, inner.d == z3.If(a < b, -1, z3.If(a == b, 0, 1)))
+
+
+def s17_cmp(E):
+    """mixed-type equality and ordering = comparison of the converted microsecond counts"""
+    n = E.int_in("n", "i32", DAY_MIN, DAY_MAX)
+    u = E.int_in("u", "i64", TS_MIN, TS_MAX)
+    k = E.int_in("secs", "i64", TS_MIN // 1_000_000, TS_MAX // 1_000_000)
+    dnv, odv = n * D, k * 1_000_000
+    d, ts, od = date_of(n), ts_of(u), od_of(odv)
+    pairs = [("&date::Date", d, dnv, "&timestamp::Timestamp", ts, u), ("&timestamp::Timestamp", ts, u, "&date::Date", d, dnv),
+             ("&oracle::Date", od, odv, "&timestamp::Timestamp", ts, u), ("&timestamp::Timestamp", ts, u, "&oracle::Date", od, odv),
+             ("&oracle::Date", od, odv, "&date::Date", d, dnv), ("&date::Date", d, dnv, "&oracle::Date", od, odv)]
+    for ta, a, av, tb, b, bv in pairs:
+        for k_, pc, r in run(E, "eq", [ta, tb], [a, b]):
+            if k_ == "panic":
+                yield pc, "panic", r
+                continue
+            yield pc, r == (av == bv), "%s == %s" % (ta, tb)
+        for k_, pc, r in run(E, "partial_cmp", [ta, tb], [a, b]):
+            if k_ == "panic":
+                yield pc, "panic", r
+                continue
+            yield pc, ord_is(r, av, bv), "%s partial_cmp %s" % (ta, tb)
